@@ -40,6 +40,8 @@ def main():
         out["generated"] = len(obs)
         obs = [o for o in obs if tgt.keeps(o.id)]
         timeout = tgt.timeout or (20 if tier == "quick" else 120)
+        if os.environ.get("PYVC_TIMEOUT"):
+            timeout = int(os.environ["PYVC_TIMEOUT"])          # debugging aid
         both = (tier == "thorough")
         syms = []
         for name, (v, typ) in sorted(getattr(ex, "param_syms", {}).items()):
